@@ -225,6 +225,27 @@ func (d *DT) Request() []byte {
 	return b
 }
 
+// RequestMsg builds the push-pull message the client would send now (for mutation by the harness).
+func (d *DT) RequestMsg() *model.PushPullMessage {
+	d.Cl.reqNum++
+	return model.NewPushPullMessage(d.Cl.reqNum, d.Cl.Model, d.DT.CreatePushPullPack())
+}
+
+// Marshal serializes a message as on the wire.
+func Marshal(msg *model.PushPullMessage) []byte {
+	b, err := proto.Marshal(msg)
+	if err != nil {
+		panic(err)
+	}
+	return b
+}
+
+// ResetCollection calls the service's ResetCollection.
+func (s *Stack) ResetCollection(name string) error {
+	_, err := s.Svc.ResetCollection(gocontext.TODO(), &model.CollectionMessage{Collection: name})
+	return err
+}
+
 // ServeResult is the outcome of one ProcessPushPull call.
 type ServeResult struct {
 	Resp    []byte // serialized response message (nil if none)
